@@ -196,6 +196,7 @@ class SingularityCutter(Worker):
             Attribute: the spanning tree given as a boolean attribute on edges
         """
         edge_flags = self.input_mesh.edges.create_attribute("singularity_tree", bool) # edge selected for spanning tree
+        edge_flags.clear() # create_attribute may return the attribute left by a previous cut of the same mesh (see config.display_duplicate_attribute_warning)
         if len(self.singularities)==0:
             # no singularities => no spanning tree and no constraints on edges
             return edge_flags
